@@ -4205,18 +4205,27 @@ impl Compiler {
                 }
                 Node::Id(id, maybe_type) => {
                     let id_register = self.assign_local_register(*id)?;
+                    // With a type hint, the value is checked in a temporary register before it's
+                    // assigned, so that a failed check leaves the variable untouched.
+                    let value_register = if maybe_type.is_some() {
+                        self.push_register()?
+                    } else {
+                        id_register
+                    };
                     if match_is_container {
                         self.push_op(
                             TempIndex,
-                            &[id_register, params.match_register, pattern_index as u8],
+                            &[value_register, params.match_register, pattern_index as u8],
                         );
                     } else {
-                        self.push_op(Copy, &[id_register, params.match_register]);
+                        self.push_op(Copy, &[value_register, params.match_register]);
                     }
 
                     if let Some(type_hint) = maybe_type {
                         let jump_placeholder =
-                            self.compile_check_type(id_register, *type_hint, ctx)?;
+                            self.compile_check_type(value_register, *type_hint, ctx)?;
+                        self.push_op(Copy, &[id_register, value_register]);
+                        self.pop_register()?; // value_register
                         // Where should failed type checks jump to?
                         if params.is_last_alternative {
                             // No more `or` alternatives, so jump to the end of the arm
@@ -4401,9 +4410,15 @@ impl Compiler {
                 }
             };
 
+            // With a type hint, the value is checked in a temporary register before it's
+            // assigned, so that a failed check leaves the variable untouched.
+            let id_register = match maybe_id {
+                Some(id) if maybe_type.is_some() => Some(self.assign_local_register(id)?),
+                _ => None,
+            };
             let element_register = match maybe_id {
-                Some(id) => self.assign_local_register(id),
-                None => self.push_register(),
+                Some(id) if maybe_type.is_none() => self.assign_local_register(id),
+                _ => self.push_register(),
             }?;
 
             // Attempt to access the requested key
@@ -4432,7 +4447,11 @@ impl Compiler {
                 jumps.push(check_failed_jump);
             }
 
-            if maybe_id.is_none() {
+            if let Some(id_register) = id_register {
+                self.push_op(Op::Copy, &[id_register, element_register]);
+            }
+
+            if maybe_id.is_none() || id_register.is_some() {
                 self.pop_register()?; // element_register
             }
         }
